@@ -44,7 +44,7 @@ CHECKS = {
         "DESIGN.md section 4 (C12)",
     ),
     "C18": (
-        "deterministic simulation: an eager baseline history re-executed under boundary faults - jit whole program, two jitted stages with objects as results/arguments, jit closure over eager objects followed by eager reuse (tracer-leak detection), flatten/unflatten and to_dict/from_dict restarts at seeded points with cold or warmed caches, vmap over a data axis, lax.scan with the density as carry",
+        "deterministic simulation: an eager baseline history re-executed under boundary faults - jit whole program, two jitted stages with objects as results/arguments, eager objects (cold or warmed caches) as jit arguments, jit closure over eager objects followed by eager reuse (tracer-leak detection), flatten/unflatten and to_dict/from_dict restarts at seeded points with cold or warmed caches, vmap over a data axis, lax.scan with the density as carry",
         "Seeded search over programs (generated pipelines) x boundary perturbations x cut points x cache states of the crossing objects. Every observation of the perturbed execution equals the eager baseline; objects that crossed a boundary are coherent and evaluate to the same function; a boundary that raises or leaks a tracer into an eager object is a violation. The reverse-mode-gradient clause of C18 is NOT decided by this family (no schedule or fault in it) and is excluded. Exploration level.",
         "DESIGN.md section 4 (C18)",
         "Gradient clause (grad vs finite differences) excluded: it is a numerical differentiation check, not a simulation target.",
